@@ -19,7 +19,7 @@ import (
 	"verif/harness/internal/quiet"
 )
 
-const queryTimeout = 220 * time.Millisecond
+const queryTimeout = 300 * time.Millisecond
 const querySeq = 7
 
 type gateT struct {
@@ -288,6 +288,11 @@ func (r *queryRun) step(st h.Step) map[string]interface{} {
 	case "end":
 		poll(2*time.Second, func() bool { return r.hasDone() })
 	}
+	// the step must be over well before the query's real deadline, otherwise the schedule's order of
+	// "expire" relative to the other steps is not the one that was executed: the attempt is repeated
+	if !r.expired && time.Since(r.t0) > queryTimeout-30*time.Millisecond {
+		r.late = true
+	}
 	return r.observe(0)
 }
 
@@ -324,9 +329,15 @@ func runQuery(scheds []h.Schedule, tr *h.Tracer) {
 			if !r.late {
 				break
 			}
-			if attempt >= 3 {
-				h.Die("query: schedule %d could not be executed before the query deadline (machine too slow)", s.ID)
+			if attempt >= 4 {
+				// the machine is too slow for this schedule right now: not executed as written, so not recorded
+				fmt.Printf("skipped-late %d\n", s.ID)
+				lines = nil
+				break
 			}
+		}
+		if lines == nil {
+			continue
 		}
 		tr.Reset(s.ID, nil)
 		for i, o := range lines {
